@@ -115,33 +115,21 @@ theorem jview_systemError (t : Topo) (s : State) (p : Nat) :
   · split <;> rfl
 
 /-- what `Inv` gives about the employees of a node that is about to stop -/
-theorem hup_of_inv {t : Topo} {s : State} (hi : Inv t s) {p : Nat} (hl : s.loopOk t p = true) :
+theorem hup_of_inv {t : Topo} {s : State} (hi : Inv t s) {p : Nat} :
     ∀ e, t.isChild p e = true → s.cleared p = false → s.downOpen e = true →
       s.gone e = true ∨ t.kind e = .worker ∨ s.upOpen e = true := by
-  intro e hc _ hd
-  have hp := gone_false_of_loopOk hl
+  intro e _ _ _
   cases hge : s.gone e with
   | true => exact Or.inl rfl
   | false =>
     right; right
-    cases hu : s.upOpen e with
-    | true => rfl
-    | false =>
-      exfalso
-      unfold State.gone at hge
-      simp only [Bool.or_eq_false_iff, Bool.not_eq_false'] at hge
-      have he0 : e ≠ 0 := (isChild_iff.mp hc).1
-      have hpar : t.parent e = p := (isChild_iff.mp hc).2.2
-      rcases hi.upe e he0 hge.2 hge.1 hu with x | x
-      · rw [hpar] at x
-        have : s.gone p = true := x
-        rw [hp] at this; cases this
-      · have : s.downOpen e = false := x
-        rw [hd] at this; cases this
+    unfold State.gone at hge
+    simp only [Bool.or_eq_false_iff, Bool.not_eq_false'] at hge
+    exact hi.upo e hge.2
 
 theorem JInv.shut {t : Topo} (wf : t.WF) {s : State} (h : JInv t s) (hi : Inv t s) {p : Nat}
-    (hl : s.loopOk t p = true) : JInv t (shutdownNode t s p) :=
-  h.shutNode wf (hup_of_inv hi hl)
+    (_hl : s.loopOk t p = true) : JInv t (shutdownNode t s p) :=
+  h.shutNode wf (hup_of_inv hi)
 
 theorem JInv.sysErr {t : Topo} (wf : t.WF) {s : State} (h : JInv t s) (hi : Inv t s) {p : Nat}
     (hl : s.loopOk t p = true) : JInv t (systemError t s p) :=
@@ -158,7 +146,7 @@ theorem JInv.closeShut {t : Topo} (wf : t.WF) {s : State} (h : JInv t s) (hi : I
     split at hd
     · cases hd
     · exact hd
-  exact hup_of_inv hi hl e' hc hcl hd'
+  exact hup_of_inv hi e' hc hcl hd'
 
 theorem JInv.clientGone {t : Topo} (wf : t.WF) {s : State} (h : JInv t s) (hi : Inv t s)
     (hl : s.loopOk t 0 = true) (c : Nat) (em : List (Dest × Msg)) : JInv t (clientGone t s c em) := by
@@ -261,24 +249,35 @@ theorem step_jinv {t : Topo} (wf : t.WF) {s s' : State} {l : Label} (hj : JInv t
       split at h
       · cases h
       · cases h
-        -- EOF on upstream: nothing can be pending for `n`
-        intro e he
-        by_cases hen : e = n
-        · subst hen
-          rcases hj e he with x | ⟨x, _⟩
-          · have : s.gone e = true := x
-            rw [hgn] at this; cases this
-          · have : Msg.shutdown ∈ s.inbox e := x
-            rw [hin] at this; cases this
-        · rcases hj e he with x | ⟨x, y⟩
-          · exact Or.inl x
-          · right
-            refine ⟨x, ?_⟩
-            rcases y with y | y
-            · exact Or.inl y
+        -- EOF on upstream: nothing can be pending for `n`; it closes upstream and stops
+        have hj0 : JInv t { s with upOpen := upd s.upOpen n false } := by
+          intro e he
+          by_cases hen : e = n
+          · subst hen
+            rcases hj e he with x | ⟨x, _⟩
+            · exact Or.inl x
+            · have : Msg.shutdown ∈ s.inbox e := x
+              rw [hin] at this; cases this
+          · rcases hj e he with x | ⟨x, y⟩
+            · exact Or.inl x
             · right
-              show (upd s.upOpen n false) e = true
-              simp only [upd_apply, hen, if_false]; exact y
+              refine ⟨x, ?_⟩
+              rcases y with y | y
+              · exact Or.inl y
+              · right
+                show (upd s.upOpen n false) e = true
+                simp only [upd_apply, hen, if_false]; exact y
+        refine JInv.shutNode (s := { s with upOpen := upd s.upOpen n false }) wf hj0 ?_
+        intro e hc hcl hd
+        rcases hup_of_inv hi e hc hcl hd with x | x | x
+        · exact Or.inl x
+        · exact Or.inr (Or.inl x)
+        · by_cases hen : e = n
+          · subst hen
+            exact absurd (child_lt wf hc) (Nat.lt_irrefl _)
+          · right; right
+            show (upd s.upOpen n false) e = true
+            simp only [upd_apply, hen, if_false]; exact x
     · rename_i m rest hin
       -- consuming the head of the inbox: a pending SHUTDOWN behind it stays pending
       have pop : ∀ s1 : State, s1.jview = ({ s with inbox := upd s.inbox n rest } : State).jview →
